@@ -13,7 +13,7 @@ PROOF_TARGETS = ["C15/Lemmas.vo"]
 PROPS = ["C15/Props.v"]
 ALLOWED_AXIOMS = []
 IMPL_TIMEOUT = 10.0
-COQ_SHARD = 40     # vm_compute/printing of the result string overflows the stack above ~30k characters
+COQ_SHARD = 20     # vm_compute/printing of the result string overflows the stack above ~30k characters
 
 
 class ExtractError(Exception):
@@ -326,27 +326,112 @@ def gen_consts(repo):
 #            "args": [arg], "kw": {name: value}, "schema": "untyped"|"typed", "rows": [[id, name, qty]], "mtd": str}
 #   compile: {"k": "compile", "pt": 0|1, "arg": arg}
 SELECT = "SELECT id, name, qty FROM t"
+# select text -> (field names of the record type, or None when no namedtuple can be made; for every selected column
+#                 the column of the stored row (id, name, qty) it shows, or ("c", constant))
+SELECTS = {
+    SELECT: (["id", "name", "qty"], [0, 1, 2]),
+    "SELECT id, qty FROM t": (["id", "qty"], [0, 2]),
+    "SELECT id, name AS nm, qty FROM t": (["id", "nm", "qty"], [0, 1, 2]),
+    "SELECT id AS k, qty AS q FROM t": (["k", "q"], [0, 2]),
+    "SELECT id, name, 1 FROM t": (None, [0, 1, ("c", 1)]),
+}
+SELECTS_NT = [k for k, v in SELECTS.items() if v[0] is not None]
 SCHEMAS = {"untyped": "CREATE TABLE t (id, name, qty)",
            "typed": "CREATE TABLE t (id INTEGER PRIMARY KEY, name TEXT, qty INT)"}
 METHODS = ["list", "all", "one", "one_or_none", "t_list", "t_one", "t_one_or_none"]
 OPS = ['=', '!=', 'IN', 'NOT IN', 'IS NULL', 'IS NOT NULL', 'LIKE', 'NOT LIKE', '>', '<', '>=', '<=']
 STR_POOL = ["", "a", "A", "ab", "Ab", "b", "a%", "a_b", "%", "_", "O'Reilly", "x' OR '1'='1", "1; DROP TABLE t; --",
-            "5", "42", "ünï", "?", "\"q\"", "a b", "NULL", "0"]
+            "5", "42", "\u00fcn\u00ef", "?", "\"q\"", "a b", "NULL", "0"]
 INT_POOL = [0, 1, 2, 3, 5, 7, 42, -3, 10 ** 12, -1]
-LIKE_POOL = ["%", "a%", "%b", "_", "a_", "%'%", "A%", "%a%", "", "a", "%%", "_%_", "5", "4_", "%;%", "%ï"]
+LIKE_POOL = ["%", "a%", "%b", "_", "a_", "%'%", "A%", "%a%", "", "a", "%%", "_%_", "5", "4_", "%;%", "%\u00ef"]
 STATICS = ["id = qty", "name IS NULL", "(id > 2 OR qty IS NULL)", "1", "name = 'a'", "qty + 0 < id", "0",
            "NOT (id = 1)", "name IS NOT NULL AND id < 4"]
 FIELDS = ["name", "qty", "id"]
 
+# Values that LOOK like something the compiler itself knows: operators, keywords, placeholders, the literals it
+# emits, names of its special keyword arguments, column names.  Besides this fixed list every short string
+# literal found in the CURRENT ak/mtd_sql.py is used (so a special case added to the source for some spelling
+# of a value is exercised with exactly that spelling), each in several letter cases and paddings.
+KW_BASE = OPS + ["NULL", "NOT NULL", "OR", "AND", "NOT", "IS", "IN ()", "NOT IN ()", "?", "%s", "%%s", "0", "1", "FALSE",
+                 "TRUE", "(", ")", "()", ", ", " OR ", " AND ", " WHERE ", "WHERE", "PLACEHOLDER", "<>", "==", "= ?", " = ?",
+                 " IS NULL", "? OR 1", "id", "name", "qty", "_order_by", "_as_scalars", "DESC", "id DESC", "None",
+                 "\u0131s null", "i\u017f null", "\u0131N", "not \u0131n", "L\u0131KE"]
+
+
+def _variants(v, full=True):
+    """spellings of one literal: as is, the other letter case, mixed case, with a trailing blank"""
+    if not full:
+        return [v]
+    out = [v, v.lower() if v.lower() != v else v.upper()]
+    if len(v) > 1 and v.lower() != v.upper():
+        out.append("".join(c.lower() if i % 2 else c.upper() for i, c in enumerate(v)))
+    out.append(v.lower() + " ")
+    if v in OPS or v == "NULL":
+        out.append(" " + v)
+    seen = []
+    for x in out:
+        if x not in seen:
+            seen.append(x)
+    return seen
+
+
+def _source_literals():
+    """short string literals of the current ak/mtd_sql.py (docstrings and long texts excluded)"""
+    try:
+        from harness.lib import implrun
+        tree = ast.parse(open(os.path.join(implrun.REPO, "ak", "mtd_sql.py")).read())
+    except Exception:
+        return []
+    out = set()
+    for n in ast.walk(tree):
+        if isinstance(n, ast.Constant) and isinstance(n.value, str) and 0 < len(n.value) <= 20 and "\n" not in n.value:
+            out.add(n.value.strip() or n.value)
+    return sorted(out)
+
+
+def _kw_values():
+    """KW_BASE and the SQL-looking literals of the source (no lower-case letter) in all spellings; the other literals
+    of the source (identifiers, message fragments) as they are"""
+    seen = []
+    lits = [(b, True) for b in KW_BASE]
+    for x in _source_literals():
+        if x not in KW_BASE:
+            lits.append((x, x.upper() == x))
+    for b, full in lits:
+        for x in _variants(b, full):
+            if x not in seen:
+                seen.append(x)
+    return seen
+
+
+_KW_CACHE = []
+
+
+def _kw_pool():
+    if not _KW_CACHE:
+        _KW_CACHE.append(_kw_values())
+    return _KW_CACHE[0]
+
+
 RULE = ("random filter lists (0-4 positional filters + keyword filters + ignored None) over random tables "
         "(0-6 rows of id/name/qty holding NULL, integers, '', quotes, %, _, SQL fragments, non-ASCII) run through "
         "SqlMethod.list/all/one/one_or_none and SqlMethodT.list/one/one_or_none on a real in-memory sqlite3 behind a "
-        "recording connection (also a '%s' flavoured one); leaves use all 12 operators in random letter case with "
+        "recording connection (also a '%s' flavoured one behaving like mysql.connector: one parameter per %s, '?' "
+        "rejected); leaves use all 12 operators in random letter case with "
         "scalars, None, lists, tuples, sets (empty/singleton/with None), 2-tuples, static texts, nested _or groups "
         "(also empty, with kwargs); a malformed stream (bad operators, incompatible values, wrong tuple lengths, "
-        "None inside _or, non-str operator); plus direct make().make_text_update_values() calls with both "
-        "placeholder styles.  Non-trivial = a statement with at least one filter was executed on a non-empty table, "
-        "or a compile case that produced text.")
+        "None inside _or, non-str operator); direct make().make_text_update_values() calls with both "
+        "placeholder styles; a SWEEP over values spelled like the operators / keywords / placeholders / emitted "
+        "literals of the compiler (every short string literal of the current ak/mtd_sql.py, in several letter cases "
+        "and paddings), each in every argument form (3-tuple with every binding operator, 2-tuple, list form, "
+        "IN-list item, keyword filter, _or operand, _or keyword) on tables holding that text and NULLs; and SESSIONS: "
+        "1-3 SqlMethod / SqlMethodT objects (different SELECTs, a SqlMethodT sharing a SqlMethod), 2-3 connection "
+        "objects of both placeholder styles over one table, 4-10 steps: requests (any method on any connection, "
+        "overriding order / scalars), condition objects made once (make / SqlFieldValCondition / _or, also nested in "
+        "each other) and used in several requests and in direct make_text_update_values calls of both styles, the "
+        "list / set objects given to them emptied, filled or changed between requests.  Non-trivial = a statement "
+        "with at least one filter was executed on a non-empty table, a compile case that produced text, or a session "
+        "with two filtered requests.")
 
 
 def _pick_scalar(rng, rows=None, col=None):
@@ -359,6 +444,8 @@ def _pick_scalar(rng, rows=None, col=None):
         return None
     if r < 0.82:
         return rng.choice(INT_POOL)
+    if r < 0.87:
+        return rng.choice(_kw_pool())
     return rng.choice(STR_POOL)
 
 
@@ -475,9 +562,11 @@ def _gen_rows(rng):
     rows = []
     for i in ids:
         r = rng.random()
-        name = None if r < 0.2 else rng.choice(INT_POOL) if r < 0.3 else rng.choice(STR_POOL[:12])
+        name = None if r < 0.2 else rng.choice(INT_POOL) if r < 0.3 else rng.choice(_kw_pool()) if r < 0.38 \
+            else rng.choice(STR_POOL[:12])
         r = rng.random()
-        qty = None if r < 0.2 else rng.choice(STR_POOL) if r < 0.3 else (i if r < 0.45 else rng.choice(INT_POOL[:8]))
+        qty = None if r < 0.2 else rng.choice(STR_POOL) if r < 0.3 else rng.choice(_kw_pool()) if r < 0.35 \
+            else (i if r < 0.5 else rng.choice(INT_POOL[:8]))
         rows.append([i, name, qty])
     return rows
 
@@ -488,7 +577,7 @@ def _gen_query(rng, bad):
     args = []
     for _ in range(nargs):
         args.append(None if rng.random() < 0.1 else _gen_arg(rng, rows, 0, bad))
-    case = {"k": "query", "mysql": rng.random() < 0.15, "select": SELECT,
+    case = {"k": "query", "mysql": rng.random() < 0.25, "select": SELECT,
             "group_by": rng.choice([None, None, None, "id", ""]),
             "order_by": rng.choice([None, None, "id", "id DESC"]),
             "as_scalars": rng.choice([None, None, True, False]),
@@ -499,7 +588,207 @@ def _gen_query(rng, bad):
         case["kw_order"] = [rng.choice([None, "id", "id DESC", "id ASC"])]
     if rng.random() < 0.25:
         case["kw_scalars"] = rng.random() < 0.5
+    if rng.random() < 0.2:
+        case["select"] = rng.choice(SELECTS_NT if case["mtd"].startswith("t_") else list(SELECTS))
     return case
+
+
+# ---------------------------------------------------------------------- keyword-like values, every form
+def _kw_sweep():
+    """for every keyword-like value: a compile case holding the value in the leaf forms, and a request"""
+    out = []
+    t3 = lambda f, op, v, as_="tuple": {"t3": [f, op, v], "as": as_}
+    for n, v in enumerate(_kw_pool()):
+        fa = [{"t2": ["name", v], "as": "tuple"}, {"t2": ["qty", v], "as": "list"}, t3("name", "=", v),
+              {"or": [t3("qty", "<", v)], "kw": {"name": v}}]
+        fb = [t3("name", "!=", v, "list"), t3("qty", ">=", v), t3("name", "like", v),
+              t3("name", "NOT LIKE", v), t3("qty", "IN", {"list": [v]}), t3("qty", "not in", {"tuple": [v, None, v]}),
+              t3("name", "in", {"set": [v]}), t3("name", "=", {"list": [v, "x"]}), t3("name", "!=", {"tuple": [v]})]
+        out.append({"k": "compile", "pt": n % 2, "arg": {"or": fa + [fb[(n + i) % len(fb)] for i in range(3)], "kw": {"qty": v}}})
+        low = v.lower() if v.lower() != v else v.upper()
+        rows = [[1, v, None], [2, None, v], [3, "x", "x"], [4, low, 5], [5, None, None], [6, v, v], [7, 0, 1]]
+        q = {"k": "query", "mysql": n % 3 == 0, "select": SELECT, "group_by": None, "order_by": "id", "as_scalars": None,
+             "schema": "typed" if n % 5 == 0 else "untyped", "rows": rows, "mtd": "one_or_none" if n % 7 == 0 else "list"}
+        if n % 3 == 0:
+            q.update(args=[fa[n % 2]], kw={})
+        elif n % 3 == 1:
+            q.update(args=[{"or": [t3("id", "<", 0)], "kw": {"name": v}}], kw={"qty": v})
+        else:
+            q.update(args=[fb[n % len(fb)]], kw={"name": {"tuple": [v, "x"]}} if n % 2 else {"name": v})
+        out.append(q)
+    return out
+
+
+# ---------------------------------------------------------------------- sessions (histories on shared objects)
+def _own_mutables(a, out, path=()):
+    """paths of the list / set values of a prepared filter (depth first; operands, then keywords by name);
+    referenced objects are not entered, tuples cannot be changed"""
+    if not isinstance(a, dict):
+        return
+    if "t3" in a or "t2" in a:
+        v = a["t3"][2] if "t3" in a else a["t2"][1]
+        if isinstance(v, dict) and ("list" in v or "set" in v):
+            out.append((path, a["t3"][0] if "t3" in a else a["t2"][0], "list" if "list" in v else "set"))
+    elif "or" in a:
+        for i, x in enumerate(a["or"]):
+            _own_mutables(x, out, path + (i,))
+        for k in sorted(a["kw"]):
+            v = a["kw"][k]
+            if isinstance(v, dict) and ("list" in v or "set" in v):
+                out.append((path + ("kw", k), k, "list" if "list" in v else "set"))
+
+
+def _gen_items(rng, rows, col, kind_):
+    items = []
+    for _ in range(rng.choice([0, 0, 1, 1, 2, 3])):
+        v = _pick_scalar(rng, rows, col if col in FIELDS else None)
+        if kind_ == "set" and v in items:
+            continue
+        items.append(v)
+    return items
+
+
+def _gen_prep(rng, rows, nkept):
+    r = rng.random()
+
+    def leaf():
+        f = rng.choice(FIELDS)
+        op = rng.choice(["IN", "NOT IN", "in", "=", "!=", "Not In"])
+        kinds = ("list", "list", "set") if op.upper() in ("IN", "NOT IN") else ("list",)
+        k = rng.choice(kinds)
+        v = {k: _gen_items(rng, rows, f, k)}
+        if op == "=" and rng.random() < 0.4:
+            return {"t2": [f, v], "as": rng.choice(["tuple", "list"])}
+        return {"t3": [f, op, v], "as": rng.choice(["tuple", "list"])}
+    if r < 0.45:
+        a = leaf()
+        if "t3" in a and rng.random() < 0.3:
+            a["ctor"] = 1                       # SqlFieldValCondition(f, op, v) directly
+        return a
+    if r < 0.75:
+        ops = []
+        for _ in range(rng.choice([1, 2, 2, 3])):
+            q = rng.random()
+            if nkept and q < 0.35:
+                ops.append({"ref": rng.randrange(nkept)})
+            elif q < 0.75:
+                ops.append(leaf())
+            else:
+                ops.append(_gen_arg(rng, rows, 2, 0.0))
+        kw = {}
+        if rng.random() < 0.4:
+            f = rng.choice(FIELDS)
+            kw[f] = {"list": _gen_items(rng, rows, f, "list")} if rng.random() < 0.6 else _pick_scalar(rng, rows, f)
+        return {"or": ops, "kw": kw}
+    if r < 0.95:
+        a = _gen_arg(rng, rows, 1, 0.0)
+        return {"s": "id = qty"} if a is None else a
+    return _gen_bad(rng, rows)
+
+
+def _gen_session(rng):
+    rows = _gen_rows(rng)
+    while len(rows) < 2 and rng.random() < 0.8:
+        rows = _gen_rows(rng)
+    methods = []
+    for _ in range(rng.choice([1, 2, 2, 3])):
+        t = rng.random() < 0.2
+        methods.append({"select": rng.choice(SELECTS_NT if t else list(SELECTS)) if rng.random() < 0.6 else SELECT,
+                        "group_by": rng.choice([None, None, None, "id", ""]),
+                        "order_by": rng.choice([None, "id", "id", "id DESC"]),
+                        "as_scalars": rng.choice([None, None, True, False]), "t": t})
+    plain = [i for i, m in enumerate(methods) if not m["t"] and not m["as_scalars"] and SELECTS[m["select"]][0] is not None]
+    if plain and rng.random() < 0.3:
+        methods.append({"wrap": rng.choice(plain)})
+    conns = rng.choice([[False, True], [True, False], [False, True, False], [True, False, True], [False, False, True]])
+    steps = []
+    kept = []            # prep args (for the mutable paths)
+    ncalls = 0
+    want = rng.choice([3, 4, 4, 5, 6, 7])
+    last_call = None
+    while ncalls < want and len(steps) < 14:
+        r = rng.random()
+        if r < 0.22 and len(kept) < 4:
+            a = _gen_prep(rng, rows, len(kept))
+            kept.append(a)
+            steps.append({"op": "prep", "arg": a})
+            continue
+        if r < 0.36 and kept:
+            cands = []
+            for i, a in enumerate(kept):
+                muts = []
+                _own_mutables(a, muts)
+                cands += [(i, j, m) for j, m in enumerate(muts)]
+            if cands:
+                i, j, (_, col, kind_) = rng.choice(cands)
+                steps.append({"op": "set", "c": i, "seq": j, "items": _gen_items(rng, rows, col, kind_)})
+                continue
+        if r < 0.44 and kept:
+            steps.append({"op": "text", "c": rng.randrange(len(kept)), "pt": rng.choice([0, 1]), "pre": rng.choice([0, 0, 1, 2])})
+            continue
+        # a request
+        if last_call is not None and rng.random() < 0.15:
+            st = dict(last_call)                 # the same request again, on another connection
+            st["conn"] = (st["conn"] + 1) % len(conns)
+        else:
+            mi = 0 if ncalls < 2 else rng.randrange(len(methods))
+            md = methods[mi]
+            tm = md.get("t") or "wrap" in md
+            args = []
+            for _ in range(rng.choice([0, 1, 1, 1, 2, 2, 3])):
+                q = rng.random()
+                if kept and q < 0.4:
+                    args.append({"ref": rng.randrange(len(kept))})
+                elif q < 0.47:
+                    args.append(None)
+                elif kept and q < 0.57:
+                    args.append({"or": [{"ref": rng.randrange(len(kept))}, _gen_leaf(rng, rows)], "kw": {}})
+                else:
+                    args.append(_gen_arg(rng, rows, 0, 0.04))
+            st = {"op": "call", "m": mi, "conn": (ncalls % len(conns)) if ncalls < 2 else rng.randrange(len(conns)),
+                  "mtd": rng.choice(METHODS[4:] if tm else METHODS[:2] * 3 + METHODS[:4]),
+                  "args": args, "kw": _gen_kw(rng, rows) if rng.random() < 0.3 else {}}
+            if rng.random() < 0.3:
+                st["kw_order"] = [rng.choice([None, "id", "id DESC", "id ASC"])]
+            if rng.random() < 0.25 and not tm:
+                st["kw_scalars"] = rng.random() < 0.5
+        steps.append(st)
+        last_call = st
+        ncalls += 1
+    return {"k": "session", "schema": "typed" if rng.random() < 0.25 else "untyped", "rows": rows, "methods": methods,
+            "conns": conns, "steps": steps}
+
+
+def _fixed_sessions():
+    rows = [[1, "James", 1], [2, "Arnold", 1], [3, "IS NULL", None], [4, None, 7], [5, "is not null", "7"], [6, "", 0]]
+    t3 = lambda f, op, v: {"t3": [f, op, v], "as": "tuple"}
+    m0 = {"select": SELECT, "group_by": None, "order_by": "id", "as_scalars": None, "t": False}
+    m1 = {"select": "SELECT id, qty FROM t", "group_by": None, "order_by": None, "as_scalars": True, "t": False}
+    call = lambda m, c, args, kw=None, mtd="list", **x: dict({"op": "call", "m": m, "conn": c, "mtd": mtd, "args": args,
+                                                             "kw": kw or {}}, **x)
+    out = []
+    for conns in ([False, True], [True, False]):
+        # one SqlMethod on connections of both kinds, then another object, then the first again
+        out.append({"k": "session", "schema": "untyped", "rows": rows, "methods": [m0, m1, {"wrap": 0}], "conns": conns,
+                    "steps": [call(0, 0, [t3("name", "LIKE", "%a%"), t3("qty", "IN", {"list": [1, 7]})]),
+                              call(0, 1, [t3("name", "LIKE", "%a%"), t3("qty", "IN", {"list": [1, 7]})]),
+                              call(1, 1, [], {"name": "IS NULL"}), call(1, 0, [], {"name": "is not null"}),
+                              call(2, 1, [t3("qty", "=", None)], mtd="t_list"),
+                              call(0, 0, [{"or": [t3("id", ">=", 5)], "kw": {"name": "James"}}], kw_order=["id DESC"]),
+                              call(0, 1, [{"t2": ["name", "IS NULL"], "as": "list"}], mtd="one")]})
+        # a condition object made while its list is empty; filled, used, emptied, used
+        out.append({"k": "session", "schema": "untyped", "rows": rows, "methods": [m0, m1], "conns": conns,
+                    "steps": [{"op": "prep", "arg": t3("id", "IN", {"list": []})},
+                              {"op": "prep", "arg": {"or": [{"ref": 0}, {"t2": ["name", {"list": []}], "as": "tuple"}], "kw": {}}},
+                              call(0, 0, [{"ref": 0}]), {"op": "set", "c": 0, "seq": 0, "items": [1, 2, 4]},
+                              call(0, 1, [{"ref": 0}]), {"op": "text", "c": 1, "pt": 1, "pre": 1},
+                              {"op": "set", "c": 1, "seq": 0, "items": ["", "IS NULL"]},
+                              call(1, 0, [{"ref": 1}, {"ref": 0}]), {"op": "text", "c": 1, "pt": 0, "pre": 0},
+                              {"op": "set", "c": 0, "seq": 0, "items": []}, call(1, 1, [{"ref": 1}]),
+                              call(0, 0, [{"ref": 0}], mtd="one_or_none")]})
+    return out
+
+
 
 
 def _fixed_cases():
@@ -552,28 +841,75 @@ def _fixed_cases():
     return out
 
 
+def _interleave(cases, sessions):
+    """sessions print several statements each: spread them so that no model shard gets many of them"""
+    if not sessions:
+        return cases
+    step = max(1, len(cases) // len(sessions))
+    out = []
+    k = 0
+    for i, c in enumerate(cases):
+        if i % step == 0 and k < len(sessions):
+            out.append(sessions[k])
+            k += 1
+        out.append(c)
+    return out + sessions[k:]
+
+
 def gen_cases(rng, tier):
     big = tier == "thorough"
     cases = _fixed_cases()
-    for _ in range(12000 if big else 1100):
+    for _ in range(12000 if big else 1000):
         cases.append(_gen_query(rng, 0.0))
-    for _ in range(3000 if big else 300):
+    for _ in range(3000 if big else 250):
         cases.append(_gen_query(rng, 0.12))
-    for _ in range(3000 if big else 300):
+    for _ in range(3000 if big else 250):
         cases.append({"k": "compile", "pt": rng.choice([0, 1]), "arg": _gen_arg(rng, None, 0, 0.15)})
-    return cases
+    cases += _kw_sweep()
+    sessions = _fixed_sessions() + [_gen_session(rng) for _ in range(1500 if big else 150)]
+    return _interleave(cases, sessions)
 
 
 def search_cases(rng, tier):
-    return [_gen_query(rng, 0.0) for _ in range(4000)] + \
+    return [_gen_query(rng, 0.0) for _ in range(3000)] + [_gen_session(rng) for _ in range(300)] + \
            [{"k": "compile", "pt": rng.choice([0, 1]), "arg": _gen_arg(rng, None, 0, 0.0)} for _ in range(1000)]
 
 
 def kind(case):
+    if case["k"] == "session":
+        return "session"
     return case["k"] + (":" + case["mtd"] if case["k"] == "query" else f":pt{case['pt']}")
 
 
+def _shrink_session(case):
+    steps = case["steps"]
+    for i, st in enumerate(steps):
+        if st["op"] != "prep":
+            c = dict(case)
+            c["steps"] = steps[:i] + steps[i + 1:]
+            yield c
+    for i, st in enumerate(steps):
+        if st["op"] == "call":
+            for j in range(len(st["args"])):
+                c = dict(case)
+                c["steps"] = list(steps)
+                c["steps"][i] = dict(st, args=st["args"][:j] + st["args"][j + 1:])
+                yield c
+            if st["kw"]:
+                c = dict(case)
+                c["steps"] = list(steps)
+                c["steps"][i] = dict(st, kw={})
+                yield c
+    for i in range(len(case["rows"])):
+        c = dict(case)
+        c["rows"] = case["rows"][:i] + case["rows"][i + 1:]
+        yield c
+
+
 def shrink_candidates(case):
+    if case["k"] == "session":
+        yield from _shrink_session(case)
+        return
     if case["k"] != "query":
         return
     for i in range(len(case["args"])):
@@ -638,14 +974,14 @@ def _mk_value(v, sets):
 
 def _mk_values(a, sets):
     """first pass: python values (and recorded set orders) in depth-first order"""
-    if a is None or "s" in a or "tn" in a or "bad" in a:
+    if a is None or "s" in a or "tn" in a or "bad" in a or "ref" in a:
         return a
     if "t3" in a:
         f, op, v = a["t3"]
-        return {"t3": [f, op, _mk_value(v, sets)], "as": a["as"]}
+        return dict(a, t3=[f, op, _mk_value(v, sets)])
     if "t2" in a:
         f, v = a["t2"]
-        return {"t2": [f, _mk_value(v, sets)], "as": a["as"]}
+        return dict(a, t2=[f, _mk_value(v, sets)])
     if "or" in a:
         ops = [_mk_values(x, sets) for x in a["or"]]
         tmp = {k: _mk_value(a["kw"][k], sets) for k in sorted(a["kw"])}     # set orders recorded in sorted-key order
@@ -653,26 +989,91 @@ def _mk_values(a, sets):
     raise ValueError(a)
 
 
-def _mk_arg(a, SqlMethod):
-    """second pass (may raise what SqlMethod._or raises)"""
+class _SkipStep(Exception):
+    """the step refers to an object whose creation raised"""
+
+
+def _mk_arg(a, SqlMethod, kept=None, made=None):
+    """second pass (may raise what SqlMethod._or raises); `made` collects the python containers handed over"""
+    def note(x):
+        if made is not None:
+            import copy
+            made.append((x, copy.deepcopy(x)))
+        return x
     if a is None:
         return None
     if "s" in a:
         return a["s"]
+    if "ref" in a:
+        k = kept[a["ref"]]
+        if k["obj"] is None:
+            raise _SkipStep()
+        return k["obj"]
     if "t3" in a:
         f, op, v = a["t3"]
         if isinstance(op, dict):
             op = 5
+        if isinstance(v, (list, tuple, set)):
+            note(v)
         t = (f, op, v)
-        return t if a["as"] == "tuple" else list(t)
+        return t if a["as"] == "tuple" else note(list(t))
     if "t2" in a:
+        if isinstance(a["t2"][1], (list, tuple, set)):
+            note(a["t2"][1])
         t = tuple(a["t2"])
-        return t if a["as"] == "tuple" else list(t)
+        return t if a["as"] == "tuple" else note(list(t))
     if "tn" in a:
         return tuple(["name"] * a["tn"])
     if "bad" in a:
         return BAD_OBJS[a["bad"]]
-    return SqlMethod._or(*[_mk_arg(x, SqlMethod) for x in a["or"]], **a["kw"])
+    for v in a["kw"].values():
+        if isinstance(v, (list, tuple, set)):
+            note(v)
+    return SqlMethod._or(*[_mk_arg(x, SqlMethod, kept, made) for x in a["or"]], **a["kw"])
+
+
+def _flat_value(v):
+    if isinstance(v, list):
+        return {"list": list(v)}
+    if isinstance(v, tuple):
+        return {"tuple": list(v)}
+    if isinstance(v, set):
+        return {"set": list(v)}          # the current iteration order
+    return v
+
+
+def _flatten(a, kept):
+    """valued filter -> JSON filter with the CURRENT contents of every container; references resolved"""
+    if a is None or "s" in a or "tn" in a or "bad" in a:
+        return a
+    if "ref" in a:
+        k = kept[a["ref"]]
+        if k["obj"] is None:
+            raise _SkipStep()
+        return _flatten(k["valued"], kept)
+    if "t3" in a:
+        f, op, v = a["t3"]
+        return {"t3": [f, op, _flat_value(v)], "as": a["as"]}
+    if "t2" in a:
+        f, v = a["t2"]
+        return {"t2": [f, _flat_value(v)], "as": a["as"]}
+    return {"or": [_flatten(x, kept) for x in a["or"]], "kw": {k: _flat_value(v) for k, v in a["kw"].items()}}
+
+
+def _valued_mutables(a, out):
+    """the list / set objects of a valued filter, in the order of _own_mutables"""
+    if not isinstance(a, dict):
+        return
+    if "t3" in a or "t2" in a:
+        v = a["t3"][2] if "t3" in a else a["t2"][1]
+        if isinstance(v, (list, set)):
+            out.append(v)
+    elif "or" in a:
+        for x in a["or"]:
+            _valued_mutables(x, out)
+        for k in sorted(a["kw"]):
+            if isinstance(a["kw"][k], (list, set)):
+                out.append(a["kw"][k])
 
 
 def _enc_param(p):
@@ -704,20 +1105,20 @@ def _subst_value(v):
 
 def _subst_arg(a):
     """same condition tree, every operand value replaced by another one of the same shape"""
-    if a is None or "s" in a or "tn" in a or "bad" in a:
+    if a is None or "s" in a or "tn" in a or "bad" in a or "ref" in a:
         return a
     if "t3" in a:
         f, op, v = a["t3"]
-        return {"t3": [f, op, _subst_value(v)], "as": a["as"]}
+        return dict(a, t3=[f, op, _subst_value(v)])
     if "t2" in a:
         f, v = a["t2"]
-        return {"t2": [f, _subst_value(v)], "as": a["as"]}
+        return dict(a, t2=[f, _subst_value(v)])
     return {"or": [_subst_arg(x) for x in a["or"]], "kw": {k: _subst_value(v) for k, v in a["kw"].items()}}
 
 
 def _leaves(a, out):
     """(field, value) operands whose atoms the oracle needs"""
-    if a is None or "s" in a or "tn" in a or "bad" in a:
+    if a is None or "s" in a or "tn" in a or "bad" in a or "ref" in a:
         return
     if "t3" in a:
         out.append((a["t3"][0], a["t3"][1], a["t3"][2]))
@@ -746,25 +1147,34 @@ def _akey(f, op, v):
     return json.dumps([f, op, v])
 
 
-def _run_query(case, args_json, record_atoms):
-    import sqlite3
-    from ak.mtd_sql import SqlMethod
-    from ak.mcaller_sql import SqlMethodT
-    db = sqlite3.connect(":memory:")
-    db.execute(SCHEMAS[case["schema"]])
-    db.executemany("INSERT INTO t (id, name, qty) VALUES (?, ?, ?)", [tuple(r) for r in case["rows"]])
-    db.commit()
-    execs = []
-    mysql = case["mysql"]
+class _DriverError(Exception):
+    """what a 'format' paramstyle driver (mysql.connector) does with a statement whose %s do not match the parameters"""
 
+
+def _open_db(schema, rows):
+    import sqlite3
+    db = sqlite3.connect(":memory:")
+    db.execute(SCHEMAS[schema])
+    db.executemany("INSERT INTO t (id, name, qty) VALUES (?, ?, ?)", [tuple(r) for r in rows])
+    db.commit()
+    return db
+
+
+def _make_conn(db, idx, mysql, execs):
+    """a recording connection object over the sqlite db; mysql = it looks and behaves like mysql.connector:
+    its class lives in a module 'mysql.connector...', every %s takes one parameter, all parameters must be used,
+    and '?' is not a placeholder"""
     class Cur:
         def __init__(self):
             self._c = db.cursor()
 
         def execute(self, sql, params=()):
-            execs.append([sql, [_enc_param(p) for p in params]])
-            real = sql.replace("%s", "?") if mysql else sql
-            return self._c.execute(real, params)
+            execs.append([idx, sql, [_enc_param(p) for p in params]])
+            if mysql:
+                if sql.count("%s") != len(params) or "?" in sql:
+                    raise _DriverError("Not all parameters were used in the SQL statement")
+                sql = sql.replace("%s", "?")
+            return self._c.execute(sql, params)
 
         @property
         def description(self):
@@ -776,10 +1186,79 @@ def _run_query(case, args_json, record_atoms):
         def close(self):
             self._c.close()
 
-    ns = {"cursor": lambda self: Cur()}
-    Conn = type("Conn", (), ns)
+    Conn = type("Conn", (), {"cursor": lambda self: Cur()})
     Conn.__module__ = "mysql.connector.verif" if mysql else "verif.sqlite_recorder"
-    conn = Conn()
+    return Conn()
+
+
+def _result_obs(r, mtd, scalars_eff, obs):
+    if mtd == "all":
+        r = list(r)
+    if mtd.startswith("t_"):
+        r = list(r.records)
+
+    def rid(x):
+        return x if scalars_eff else x[0]
+    obs["fields"] = None
+    if isinstance(r, list):
+        obs["res"] = ["rows", [rid(x) for x in r]]
+        obs["recs"] = None if scalars_eff else [list(x) for x in r]
+        if r and not scalars_eff:
+            obs["fields"] = [list(getattr(x, "_fields", ())) or None for x in r][0]
+    elif r is None:
+        obs["res"] = ["none"]
+    else:
+        obs["res"] = ["one", rid(r)]
+        obs["recs"] = None if scalars_eff else [list(r)]
+        if not scalars_eff:
+            obs["fields"] = list(getattr(r, "_fields", ())) or None
+
+
+def _measure(db, leaves, sts, obs):
+    """the engine's own truth of every atom (col op ?) and static text, per row"""
+    cur = db.cursor()
+    obs["stored"] = [list(r) for r in cur.execute("SELECT id, name, qty FROM t ORDER BY id")]
+    atoms = {}
+    for f_, op, v in leaves:
+        if f_ not in FIELDS or not isinstance(op, str):
+            continue
+        opu = op.upper()
+        items = list(v.values())[0] if isinstance(v, dict) else [v]
+        if opu in ("LIKE", "NOT LIKE"):
+            sqlops = ["LIKE"]
+        elif opu in (">", "<", ">=", "<="):
+            sqlops = [opu]
+        elif opu in ("=", "IN", "NOT IN"):
+            sqlops = ["="]
+        elif opu == "!=":
+            sqlops = ["!=", "="]
+        else:
+            sqlops = []
+        for so in sqlops:
+            for x in items:
+                key = _akey(f_, so, x)
+                if key in atoms or isinstance(x, (dict, list)):
+                    continue
+                try:
+                    atoms[key] = {str(i): t for i, t in cur.execute(f"SELECT id, ({f_} {so} ?) FROM t", [x])}
+                except Exception:
+                    pass
+    stat = {}
+    for s in sts:
+        try:
+            stat[s] = {str(i): t for i, t in cur.execute(f"SELECT id, ({s}) FROM t")}
+        except Exception:
+            stat[s] = None
+    obs["atoms"] = atoms
+    obs["statics"] = stat
+
+
+def _run_query(case, args_json, record_atoms):
+    from ak.mtd_sql import SqlMethod
+    from ak.mcaller_sql import SqlMethodT
+    db = _open_db(case["schema"], case["rows"])
+    execs = []
+    conn = _make_conn(db, 0, case["mysql"], execs)
     sets = []
     vals = [_mk_values(a, sets) for a in args_json]
     kwv = {k: _mk_value(case["kw_eff"][k], sets) for k in sorted(case["kw_eff"])}
@@ -802,75 +1281,161 @@ def _run_query(case, args_json, record_atoms):
         if "kw_scalars" in case and not mtd.startswith("t_"):
             kw["_as_scalars"] = case["kw_scalars"]
         args = [_mk_arg(a, SqlMethod) for a in vals]
-        r = f(conn, *args, **kw)
-        if mtd == "all":
-            r = list(r)
-        if mtd.startswith("t_"):
-            r = list(r.records)
-
-        def rid(x):
-            return x if scalars_eff else x[0]
-        if isinstance(r, list):
-            obs["res"] = ["rows", [rid(x) for x in r]]
-            obs["recs"] = None if scalars_eff else [list(x) for x in r]
-        elif r is None:
-            obs["res"] = ["none"]
-        else:
-            obs["res"] = ["one", rid(r)]
-            obs["recs"] = None if scalars_eff else [list(r)]
+        _result_obs(f(conn, *args, **kw), mtd, scalars_eff, obs)
     except Exception as e:
         obs["res"] = ["err", SX.exc_name(e)]
-    obs["execs"] = execs
+    obs["execs"] = [e[1:] for e in execs]
     if record_atoms:
-        cur = db.cursor()
-        obs["stored"] = [list(r) for r in cur.execute("SELECT id, name, qty FROM t ORDER BY id")]
-        atoms = {}
         leaves = []
         for a in args_json:
             _leaves(a, leaves)
         for k, v in case["kw_eff"].items():
             leaves.append((k, "=", v))
-        for f_, op, v in leaves:
-            if f_ not in FIELDS or not isinstance(op, str):
-                continue
-            opu = op.upper()
-            items = list(v.values())[0] if isinstance(v, dict) else [v]
-            if opu in ("LIKE", "NOT LIKE"):
-                sqlops = ["LIKE"]
-            elif opu in (">", "<", ">=", "<="):
-                sqlops = [opu]
-            elif opu in ("=", "IN", "NOT IN"):
-                sqlops = ["="]
-            elif opu == "!=":
-                sqlops = ["!=", "="]
-            else:
-                sqlops = []
-            for so in sqlops:
-                for x in items:
-                    key = _akey(f_, so, x)
-                    if key in atoms or isinstance(x, (dict, list)):
-                        continue
-                    try:
-                        atoms[key] = {str(i): t for i, t in cur.execute(f"SELECT id, ({f_} {so} ?) FROM t", [x])}
-                    except Exception:
-                        pass
         sts = []
         for a in args_json:
             _statics(a, sts)
-        stat = {}
-        for s in sts:
+        _measure(db, leaves, sts, obs)
+    db.close()
+    return obs
+
+
+def _run_session(case, subst):
+    """one process, one table, the objects of the case created once; every step observed"""
+    import copy
+    from ak.mtd_sql import SqlFilterCondition, SqlFieldValCondition, SqlMethod
+    from ak.mcaller_sql import SqlMethodT
+    sa = _subst_arg if subst else (lambda a: a)
+    sv = _subst_value if subst else (lambda v: v)
+    db = _open_db(case["schema"], case["rows"])
+    execs = []
+    conns = [_make_conn(db, i, my, execs) for i, my in enumerate(case["conns"])]
+    methods = []
+    for md in case["methods"]:
+        if "wrap" in md:
+            methods.append(SqlMethodT(methods[md["wrap"]]))       # shares the SqlMethod object
+            continue
+        ctor = {"group_by": md["group_by"], "order_by": md["order_by"]}
+        if md["t"]:
+            methods.append(SqlMethodT(SqlMethod(md["select"], **ctor)))
+        else:
+            if md["as_scalars"] is not None:
+                ctor["as_scalars"] = md["as_scalars"]
+            methods.append(SqlMethod(md["select"], **ctor))
+    kept = []
+    out = []
+    all_eff = []
+    for st in case["steps"]:
+        op = st["op"]
+        so = {}
+        out.append(so)
+        if op == "prep":
+            valued = _mk_values(sa(st["arg"]), [])
+            k = {"valued": valued, "obj": None}
+            kept.append(k)
             try:
-                stat[s] = {str(i): t for i, t in cur.execute(f"SELECT id, ({s}) FROM t")}
-            except Exception:
-                stat[s] = None
-        obs["atoms"] = atoms
-        obs["statics"] = stat
+                if valued.get("ctor"):
+                    f, o, v = valued["t3"]
+                    obj = SqlFieldValCondition(f, o, v)
+                else:
+                    a = _mk_arg(valued, SqlMethod, kept[:-1])
+                    obj = a if isinstance(a, SqlFilterCondition) else SqlFilterCondition.make(a)
+                k["obj"] = obj
+                so["r"] = ["ok"]
+                so["eff"] = _flatten(valued, kept)
+            except _SkipStep:
+                so["skip"] = 1
+            except Exception as e:
+                so["r"] = ["err", SX.exc_name(e)]
+                try:
+                    so["eff"] = _flatten(valued, kept)
+                except _SkipStep:
+                    so.pop("r")
+                    so["skip"] = 1
+            continue
+        if op == "set":
+            k = kept[st["c"]]
+            muts = []
+            _valued_mutables(k["valued"], muts)
+            tgt = muts[st["seq"]]
+            items = list(sv({"list": st["items"]}).values())[0]
+            if isinstance(tgt, list):
+                tgt[:] = items
+            else:
+                tgt.clear()
+                tgt.update(items)
+            continue
+        if op == "text":
+            k = kept[st["c"]]
+            if k["obj"] is None:
+                so["skip"] = 1
+                continue
+            so["eff"] = _flatten(k["valued"], kept)
+            vals = [7] * st["pre"]
+            try:
+                text = k["obj"].make_text_update_values(vals, st["pt"])
+                so["r"] = ["ok", text, [_enc_param(p) for p in vals]]
+            except Exception as e:
+                so["r"] = ["err", SX.exc_name(e)]
+            continue
+        # ---- a request
+        md = case["methods"][st["m"]]
+        base = case["methods"][md["wrap"]] if "wrap" in md else md
+        mtd = st["mtd"]
+        tm = mtd.startswith("t_")
+        scalars_eff = False if tm else st.get("kw_scalars", bool(base["as_scalars"]))
+        valued = [_mk_values(sa(a), []) for a in st["args"]]
+        kwv = {k: _mk_value(sv(v), []) for k, v in st["kw"].items()}
+        try:
+            so["eff"] = [_flatten(a, kept) for a in valued]
+        except _SkipStep:
+            so["skip"] = 1
+            continue
+        so["effkw"] = {k: _flat_value(v) for k, v in kwv.items()}
+        all_eff.append((so["eff"], so["effkw"]))
+        n0 = len(execs)
+        made = []
+        try:
+            kw = dict(kwv)
+            made += [(v, copy.deepcopy(v)) for v in kwv.values() if isinstance(v, (list, tuple, set))]
+            if "kw_order" in st:
+                kw["_order_by"] = st["kw_order"][0]
+            if "kw_scalars" in st and not tm:
+                kw["_as_scalars"] = st["kw_scalars"]
+            f = getattr(methods[st["m"]], mtd[2:] if tm else mtd)
+            args = [_mk_arg(a, SqlMethod, kept, made) for a in valued]
+            _result_obs(f(conns[st["conn"]], *args, **kw), mtd, scalars_eff, so)
+        except Exception as e:
+            so["res"] = ["err", SX.exc_name(e)]
+        so["execs"] = execs[n0:]
+        after = ([_flatten(a, kept) for a in valued], {k: _flat_value(v) for k, v in kwv.items()})
+        so["mut"] = bool(after != (so["eff"], so["effkw"]) or any(type(x) is not type(y) or x != y for x, y in made))
+    obs = {"steps": out, "sets": []}
+    if not subst:
+        leaves = []
+        sts = []
+        for so in out:
+            effs = so.get("eff")
+            if effs is None:
+                continue
+            for a in (effs if isinstance(effs, list) else [effs]):
+                _leaves(a, leaves)
+                _statics(a, sts)
+            for k, v in so.get("effkw", {}).items():
+                leaves.append((k, "=", v))
+        _measure(db, leaves, sts, obs)
     db.close()
     return obs
 
 
 def impl_run(case):
     from ak.mtd_sql import SqlFilterCondition, SqlMethod
+    if case["k"] == "session":
+        obs = _run_session(case, False)
+        o2 = _run_session(case, True)
+        # non-interference probe: the same history with other operand values of the same shapes
+        obs["texts2"] = [([e[1] for e in so["execs"]] if "execs" in so else so.get("r", [None])[:2])
+                         for so in o2["steps"]]
+        return obs
     if case["k"] == "compile":
         sets = []
         val = _mk_values(case["arg"], sets)
@@ -917,7 +1482,7 @@ def _c_scalars(items):
 def _c_value(v, sets):
     if isinstance(v, dict):
         (k, items), = v.items()
-        if k == "set":
+        if k == "set" and sets is not None:     # sets None: the items already are in iteration order
             items = sets.pop(0)
         return f"(VSeq {KIND_NAME[k]} {_c_scalars(items)})"
     return f"(VS {_c_scalar(v)})"
@@ -961,42 +1526,97 @@ def _effective_order(case):
     return case["kw_order"][0] if "kw_order" in case else case["order_by"]
 
 
-def _with_rows(case, obs):
-    if case["schema"] != "untyped":
+def _rows_comparable(schema, rows, statics, res, execs):
+    if schema != "untyped":
         return False
-    st = obs.get("statics") or {}
-    if not case.get("rows") and (obs.get("res") or [None])[0] == "err" and obs.get("execs"):
+    if not rows and (res or [None])[0] == "err" and execs:
         # the engine rejected the executed statement (e.g. a malformed field name gives 'WHERE  = ') and
         # the table is empty: Model.v's evaluator looks at the WHERE clause only per row, so with no row
         # it cannot see the rejection; only the statement text and the bound values are compared
         return False
-    return all(v is not None for v in st.values())
+    return all(v is not None for v in (statics or {}).values())
+
+
+def _with_rows(case, obs):
+    return _rows_comparable(case["schema"], case.get("rows"), obs.get("statics"), obs.get("res"), obs.get("execs"))
+
+
+def _c_method(md):
+    return (f"{{| m_select := {SX.cstr(md['select'])}; m_group := {_c_optstr(md['group_by'])}; "
+            f"m_order := {_c_optstr(md['order_by'])} |}}")
+
+
+def _c_statics(statics):
+    st = []
+    for text, per in (statics or {}).items():
+        ents = "; ".join(f"({SX.cZ(int(i))}, {_tv_code(t)})" for i, t in per.items())
+        st.append(f"({SX.cstr(text.strip(' '))}, {'[' + ents + ']' if ents else '(@nil (Z * Z))'})")
+    return '[' + '; '.join(st) + ']' if st else '(@nil (list Z * list (Z * Z)))'
+
+
+def _c_rows(rows_json):
+    rows = []
+    for i, name, qty in rows_json:
+        rows.append(f"{{| r_id := {SX.cZ(i)}; r_cols := [({SX.cstr('id')}, SInt {SX.cZ(i)}); "
+                    f"({SX.cstr('name')}, {_c_scalar(name)}); ({SX.cstr('qty')}, {_c_scalar(qty)})] |}}")
+    return '[' + '; '.join(rows) + ']' if rows else '(@nil row)'
+
+
+def _is_desc(order):
+    return order is not None and order.upper().endswith("DESC")
+
+
+def _base_method(case, mi):
+    md = case["methods"][mi]
+    return case["methods"][md["wrap"]] if "wrap" in md else md
+
+
+def _session_wr(case, obs):
+    return case["schema"] == "untyped" and all(v is not None for v in (obs.get("statics") or {}).values())
+
+
+def _step_order(case, st):
+    return st["kw_order"][0] if "kw_order" in st else _base_method(case, st["m"])["order_by"]
+
+
+def _coq_session(case, obs):
+    wr = _session_wr(case, obs)
+    ms = "[" + "; ".join(_c_method(_base_method(case, i)) for i in range(len(case["methods"]))) + "]"
+    steps = []
+    for st, so in zip(case["steps"], obs["steps"]):
+        op = st["op"]
+        if op == "set":
+            continue
+        if so.get("skip"):
+            steps.append("SSkip")
+        elif op == "prep":
+            steps.append(f"SPrep {_c_arg(so['eff'], None)}")
+        elif op == "text":
+            steps.append(f"SText {st['pt']} {_c_arg(so['eff'], None)}")
+        else:
+            args = [_c_arg(a, None) for a in so["eff"]]
+            kwo = f"(Some {_c_optstr(st['kw_order'][0])})" if "kw_order" in st else "None"
+            w = wr and _rows_comparable(case["schema"], case["rows"], {}, so.get("res"), so.get("execs"))
+            steps.append(f"SCall {st['m']} {SX.cbool(case['conns'][st['conn']])} {kwo} "
+                         f"{'[' + '; '.join(args) + ']' if args else '(@nil arg)'} {_c_kw(so['effkw'], None)} "
+                         f"{SX.cbool(w)} {SX.cbool(_is_desc(_step_order(case, st)))} {METHODS.index(st['mtd'])}")
+    return (f"Session {ms} {_c_statics(obs.get('statics') if wr else None)} {_c_rows(case['rows'] if wr else [])} "
+            f"{'[' + '; '.join(steps) + ']' if steps else '(@nil step)'}")
 
 
 def coq_case(case, obs):
+    if case["k"] == "session":
+        return _coq_session(case, obs)
     sets = [list(s) for s in obs["sets"]]
     if case["k"] == "compile":
         return f"Compile {case['pt']} {_c_arg(case['arg'], sets)}"
     args = [_c_arg(a, sets) for a in case["args"]]
     kw = _c_kw(case["kw"], sets)
-    m = (f"{{| m_select := {SX.cstr(case['select'])}; m_group := {_c_optstr(case['group_by'])}; "
-         f"m_order := {_c_optstr(case['order_by'])} |}}")
     kwo = f"(Some {_c_optstr(case['kw_order'][0])})" if "kw_order" in case else "None"
     wr = _with_rows(case, obs)
-    st = []
-    rows = []
-    if wr:
-        for text, per in (obs.get("statics") or {}).items():
-            ents = "; ".join(f"({SX.cZ(int(i))}, {_tv_code(t)})" for i, t in per.items())
-            st.append(f"({SX.cstr(text.strip(' '))}, {'[' + ents + ']' if ents else '(@nil (Z * Z))'})")
-        for i, name, qty in case["rows"]:
-            rows.append(f"{{| r_id := {SX.cZ(i)}; r_cols := [({SX.cstr('id')}, SInt {SX.cZ(i)}); "
-                        f"({SX.cstr('name')}, {_c_scalar(name)}); ({SX.cstr('qty')}, {_c_scalar(qty)})] |}}")
-    order = _effective_order(case)
-    desc = order is not None and order.upper().endswith("DESC")
-    return (f"Query {SX.cbool(case['mysql'])} {m} {kwo} {'[' + '; '.join(args) + ']' if args else '(@nil arg)'} {kw} "
-            f"{SX.cbool(wr)} {'[' + '; '.join(st) + ']' if st else '(@nil (list Z * list (Z * Z)))'} "
-            f"{'[' + '; '.join(rows) + ']' if rows else '(@nil row)'} {SX.cbool(desc)} {METHODS.index(case['mtd'])}")
+    return (f"Query {SX.cbool(case['mysql'])} {_c_method(case)} {kwo} {'[' + '; '.join(args) + ']' if args else '(@nil arg)'} {kw} "
+            f"{SX.cbool(wr)} {_c_statics(obs.get('statics') if wr else None)} {_c_rows(case['rows'] if wr else [])} "
+            f"{SX.cbool(_is_desc(_effective_order(case)))} {METHODS.index(case['mtd'])}")
 
 
 def _sx_param(p):
@@ -1010,31 +1630,57 @@ def _sx_param(p):
     return [2, KIND_CODE[k], [_sx_param(x) for x in items]]
 
 
-def expected_sx(case, obs):
-    if case["k"] == "compile":
-        r = obs["r"]
-        if r[0] == "err":
-            return SX.dumps(SX.err(r[1]))
-        return SX.dumps(SX.ok([SX.s(r[1]), [_sx_param(p) for p in r[2]]]))
-    ex = obs["execs"]
+def _sx_compile(r):
+    if r[0] == "err":
+        return SX.err(r[1])
+    return SX.ok([SX.s(r[1]), [_sx_param(p) for p in r[2]]])
+
+
+def _sx_request(ex, res, with_rows, order):
+    """ex = executed [sql, params] statements of the request"""
     rec = [SX.s(ex[0][0]), [_sx_param(p) for p in ex[0][1]]] if ex else []
-    res = obs["res"]
     if not ex:
         out = SX.err(res[1]) if res[0] == "err" else [9]
-    elif not _with_rows(case, obs):
+    elif not with_rows:
         out = []
     elif res[0] == "err":
         out = SX.err(res[1])
     elif res[0] == "rows":
         ids = res[1]
-        if _effective_order(case) is None:
+        if order is None:
             ids = sorted(ids)
         out = SX.ok([0, ids])
     elif res[0] == "none":
         out = SX.ok([1])
     else:
         out = SX.ok([2, res[1]])
-    return SX.dumps([rec, out])
+    return [rec, out]
+
+
+def expected_sx(case, obs):
+    if case["k"] == "compile":
+        return SX.dumps(_sx_compile(obs["r"]))
+    if case["k"] == "session":
+        wr = _session_wr(case, obs)
+        out = []
+        for st, so in zip(case["steps"], obs["steps"]):
+            op = st["op"]
+            if op == "set":
+                continue
+            if so.get("skip"):
+                out.append([7])
+            elif op == "prep":
+                out.append(SX.ok([]) if so["r"][0] == "ok" else SX.err(so["r"][1]))
+            elif op == "text":
+                r = so["r"]
+                if r[0] == "ok" and r[2][:st["pre"]] == [7] * st["pre"]:
+                    r = ["ok", r[1], r[2][st["pre"]:]]       # the values already in the list stay in front
+                out.append(_sx_compile(r))
+            else:
+                w = wr and _rows_comparable(case["schema"], case["rows"], {}, so.get("res"), so.get("execs"))
+                out.append(_sx_request([e[1:] for e in so["execs"]], so["res"], w, _step_order(case, st)))
+        return SX.dumps(out)
+    return SX.dumps(_sx_request(obs["execs"], obs["res"], _with_rows(case, obs), _effective_order(case)))
 
 
 def in_model(case, obs):
@@ -1045,6 +1691,14 @@ def in_model(case, obs):
         return not (isinstance(p, dict) and "other" in p)
     if case["k"] == "compile":
         return obs["r"][0] == "err" or all(ok_param(p) for p in obs["r"][2])
+    if case["k"] == "session":
+        for so in obs["steps"]:
+            if not all(ok_param(p) for e in so.get("execs", []) for p in e[2]):
+                return False
+            r = so.get("r")
+            if r and r[0] == "ok" and len(r) > 2 and not all(ok_param(p) for p in r[2]):
+                return False
+        return True
     return all(ok_param(p) for e in obs["execs"] for p in e[1])
 
 
@@ -1188,29 +1842,35 @@ def _same(a, b):
     return type(a) is type(b) and a == b
 
 
-def oracle(case, obs):
-    if "__hang__" in obs:
-        return [("hang", "call did not return")]
+def _oracle_compile(arg, pt, r, r2):
     out = []
-    if case["k"] == "compile":
-        try:
-            t = _spec(case["arg"])
-        except _Outside:
-            return []
-        r = obs["r"]
-        if r[0] != "ok":
-            return [("raises-on-valid-filter", f"make/make_text_update_values raised {r[1]} for a documented filter {case['arg']}")]
-        ph = "?" if case["pt"] == 0 else "%s"
-        segs = []
-        _segments(t, segs)
-        if any(isinstance(p, dict) for p in r[2]) or not _params_match(segs, r[2]):
-            out.append(("params-mismatch", f"bound values {r[2]} are not the operands in order for {case['arg']} (text {r[1]!r})"))
-        if r[1].count(ph) != len(r[2]):
-            out.append(("placeholder-count", f"{r[1].count(ph)} placeholders but {len(r[2])} bound values in {r[1]!r}"))
-        if obs["r2"] != ["ok", r[1]]:
-            out.append(("value-in-text", f"text depends on operand values: {r[1]!r} vs {obs['r2']} for {case['arg']}"))
-        return out
-    # ---- query
+    try:
+        t = _spec(arg)
+    except _Outside:
+        return []
+    if r[0] != "ok":
+        return [("raises-on-valid-filter", f"make/make_text_update_values raised {r[1]} for a documented filter {arg}")]
+    ph = "?" if pt == 0 else "%s"
+    other = "%s" if pt == 0 else "?"
+    segs = []
+    _segments(t, segs)
+    if any(isinstance(p, dict) for p in r[2]) or not _params_match(segs, r[2]):
+        out.append(("params-mismatch", f"bound values {r[2]} are not the operands in order for {arg} (text {r[1]!r})"))
+    if r[1].count(ph) != len(r[2]) or other in r[1]:
+        out.append(("placeholder-count", f"{r[1].count(ph)} placeholders {ph!r} but {len(r[2])} bound values in {r[1]!r}"))
+    if r2 is not None and list(r2) != ["ok", r[1]]:
+        out.append(("value-in-text", f"text depends on operand values: {r[1]!r} vs {r2} for {arg}"))
+    return out
+
+
+def _expected_record(select, stored_row):
+    return [stored_row[c] if isinstance(c, int) else c[1] for c in SELECTS[select][1]]
+
+
+def _oracle_query(case, obs):
+    """case: args, kw, mtd, mysql, select, order_by [, kw_order]; obs: stored, atoms, statics, res, execs ([sql, params]),
+    execs2, recs, fields"""
+    out = []
     try:
         specs = [_spec(a) for a in case["args"] if a is not None]
         specs += [_meaning(k, "=", case["kw"][k]) for k in sorted(case["kw"])]
@@ -1254,20 +1914,126 @@ def oracle(case, obs):
                          f"args {case['args']}, kw {case['kw']})"))
     elif obs.get("recs") is not None:
         for rec in obs["recs"]:
-            if not (rec[0] in stored and all(_same(a, b) for a, b in zip(rec, stored[rec[0]]))):
-                out.append(("wrong-record", f"record {rec} is not the stored row {stored.get(rec[0])}"))
+            exp_rec = _expected_record(case["select"], stored[rec[0]]) if rec and rec[0] in stored else None
+            if exp_rec is None or len(rec) != len(exp_rec) or not all(_same(a, b) for a, b in zip(rec, exp_rec)):
+                out.append(("wrong-record", f"record {rec} is not the selected part {exp_rec} of the stored row"))
                 break
+        if obs["recs"] and obs.get("fields") != SELECTS[case["select"]][0]:
+            out.append(("wrong-record", f"record fields {obs.get('fields')} for {case['select']!r}"))
     segs = []
     for t in specs:
         _segments(t, segs)
     if any(isinstance(p, dict) for p in params) or not _params_match(segs, params):
         out.append(("params-mismatch", f"bound values {params} are not the operands in order (sql {sql!r}, args {case['args']}, kw {case['kw']})"))
     ph = "%s" if case["mysql"] else "?"
-    if sql.count(ph) != len(params):
-        out.append(("placeholder-count", f"{sql.count(ph)} placeholders but {len(params)} bound values in {sql!r}"))
+    other = "?" if case["mysql"] else "%s"
+    if sql.count(ph) != len(params) or other in sql:
+        out.append(("placeholder-count", f"{sql.count(ph)} placeholders {ph!r} but {len(params)} bound values in {sql!r}"))
     if obs["execs2"] != [sql]:
         out.append(("value-in-text", f"statement text depends on operand values: {sql!r} vs {obs['execs2']}"))
     return out
+
+
+def _set_path(a, path, items):
+    """a copy of filter a with the container at `path` holding `items`"""
+    if not path:
+        if "t3" in a:
+            (k, _), = a["t3"][2].items()
+            return dict(a, t3=[a["t3"][0], a["t3"][1], {k: list(items)}])
+        (k, _), = a["t2"][1].items()
+        return dict(a, t2=[a["t2"][0], {k: list(items)}])
+    if path[0] == "kw":
+        (k, _), = a["kw"][path[1]].items()
+        return {"or": a["or"], "kw": dict(a["kw"], **{path[1]: {k: list(items)}})}
+    ops = list(a["or"])
+    ops[path[0]] = _set_path(ops[path[0]], path[1:], items)
+    return {"or": ops, "kw": a["kw"]}
+
+
+def _resolve(a, kept):
+    if not isinstance(a, dict) or "ref" not in a and "or" not in a:
+        return a
+    if "ref" in a:
+        return _resolve(kept[a["ref"]], kept)
+    return {"or": [_resolve(x, kept) for x in a["or"]], "kw": a["kw"]}
+
+
+def _session_effective(case):
+    """what each step means, from the case alone: the filters of a request / text step with every reference
+    replaced by the filter the object was made from, holding the contents its lists have at that moment"""
+    kept = []
+    out = []
+    for st in case["steps"]:
+        op = st["op"]
+        if op == "prep":
+            kept.append(st["arg"])
+            out.append(_resolve(st["arg"], kept))
+        elif op == "set":
+            muts = []
+            _own_mutables(kept[st["c"]], muts)
+            kept[st["c"]] = _set_path(kept[st["c"]], muts[st["seq"]][0], st["items"])
+            out.append(None)
+        elif op == "text":
+            out.append(_resolve(kept[st["c"]], kept))
+        else:
+            out.append([_resolve(a, kept) for a in st["args"]])
+    return out
+
+
+def _oracle_session(case, obs):
+    out = []
+    effs = _session_effective(case)
+    for i, (st, so, eff) in enumerate(zip(case["steps"], obs["steps"], effs)):
+        op = st["op"]
+        found = []
+        if op == "set":
+            continue
+        if op == "prep":
+            try:
+                _spec(eff)
+            except _Outside:
+                continue
+            if so.get("skip") or so["r"][0] != "ok":
+                found.append(("raises-on-valid-filter", f"creating a condition object for the documented filter {eff} raised {so.get('r')}"))
+        elif op == "text":
+            if so.get("skip"):
+                continue
+            r = so["r"]
+            if r[0] == "ok":
+                if r[2][:st["pre"]] != [7] * st["pre"]:
+                    found.append(("params-mismatch", f"make_text_update_values changed the values already in the list: {r[2]}"))
+                r = ["ok", r[1], r[2][st["pre"]:]]
+            found += _oracle_compile(eff, st["pt"], r, obs["texts2"][i])
+        else:
+            if so.get("skip"):
+                continue
+            md = _base_method(case, st["m"])
+            qc = {"args": eff, "kw": st["kw"], "mtd": st["mtd"], "mysql": case["conns"][st["conn"]],
+                  "select": md["select"], "order_by": md["order_by"]}
+            if "kw_order" in st:
+                qc["kw_order"] = st["kw_order"]
+            qo = {"stored": obs["stored"], "atoms": obs["atoms"], "statics": obs["statics"], "res": so["res"],
+                  "execs": [e[1:] for e in so["execs"]], "execs2": obs["texts2"][i], "recs": so.get("recs"),
+                  "fields": so.get("fields")}
+            found += _oracle_query(qc, qo)
+            if any(e[0] != st["conn"] for e in so["execs"]):
+                found.append(("wrong-connection", f"the request was given connection {st['conn']} but executed on {[e[0] for e in so['execs']]}"))
+            if so.get("mut"):
+                found.append(("argument-mutated", f"the request changed an argument object passed to it: {so['eff']} {so['effkw']}"))
+        steps_txt = [x if x["op"] != "call" else {k: v for k, v in x.items() if k != "op"} for x in case["steps"][:i + 1]]
+        out += [(sig, f"step {i} of a session ({'mysql' if op == 'call' and case['conns'][st['conn']] else '?'}-style): {msg}; "
+                      f"history: {steps_txt}"[:1500]) for sig, msg in found]
+    return out
+
+
+def oracle(case, obs):
+    if "__hang__" in obs:
+        return [("hang", "call did not return")]
+    if case["k"] == "compile":
+        return _oracle_compile(case["arg"], case["pt"], obs["r"], obs["r2"])
+    if case["k"] == "session":
+        return _oracle_session(case, obs)
+    return _oracle_query(case, obs)
 
 
 def nontrivial(case, obs):
@@ -1275,6 +2041,8 @@ def nontrivial(case, obs):
         return False
     if case["k"] == "compile":
         return obs["r"][0] == "ok"
+    if case["k"] == "session":
+        return sum(1 for so in obs["steps"] if so.get("execs") and " WHERE " in so["execs"][0][1]) >= 2
     return bool(obs["execs"]) and " WHERE " in obs["execs"][0][0] and bool(case["rows"])
 
 
@@ -1283,6 +2051,10 @@ def outcome(case, obs):
         return "hang"
     if case["k"] == "compile":
         return "compile:" + (obs["r"][0] if obs["r"][0] == "ok" else obs["r"][1])
+    if case["k"] == "session":
+        styles = {case["conns"][st["conn"]] for st, so in zip(case["steps"], obs["steps"])
+                  if st["op"] == "call" and so.get("execs")}
+        return "session:" + ("both-styles" if len(styles) == 2 else "one-style")
     r = obs["res"]
     return "query:" + (r[1] if r[0] == "err" else r[0])
 
